@@ -205,8 +205,8 @@ func genScenario(rt *rapid.T, i int) *Scenario {
 	if !sc.Oneway && pct(rt, l("disconnect"), 25) {
 		sc.Client.Disconnect = true
 		sc.Client.Rst = rapid.Bool().Draw(rt, l("disc_rst"))
-		names := []string{"early", "near-global", "near-answer", "late"}
-		weights := []int{25, 25, 25, 8}
+		names := []string{"early", "near-global", "near-answer", "late", "at-answer"}
+		weights := []int{25, 25, 15, 8, 30}
 		if sc.TryMs > 0 {
 			names = append(names, "near-try")
 			weights = append(weights, 25)
@@ -220,6 +220,8 @@ func genScenario(rt *rapid.T, i int) *Scenario {
 			sc.Client.AtUs = sc.TryMs*1000 + delta
 		case "near-global":
 			sc.Client.AtUs = sc.GlobalMs*1000 + delta
+		case "at-answer":
+			sc.Client.AtUs = rapid.SampledFrom([]int{0, 20, 40, 60, 80, 100, 130, 160, 200, 250, 300, 400}).Draw(rt, l("disc_after_answer_us"))
 		case "near-answer":
 			sc.Client.AtUs = sc.Steps[0].At.OffUs + delta
 			if sc.Client.AtUs < 200 {
